@@ -124,6 +124,17 @@ impl<'w> FnTr<'w> {
                     None => Err(self.err(e, "control-flow expression with statements / panicking operations nested inside another expression is unsupported (bind it with `let` first)")),
                 }
             }
+            // `[a, b, ..]` (array constant): a list
+            Expr::Array(a) => {
+                let el = match exp { Some(RTy::VecList(el)) | Some(RTy::VecFn(el)) => (**el).clone(), _ => return Err(self.err(e, "array literal where no array type is expected")) };
+                let mut xs = vec![];
+                for x in &a.elems {
+                    let v = self.tr_expr(x, Some(&el))?;
+                    if v.ty != el || !v.pure { return Err(self.err(e, "array element of the wrong type / that can panic")); }
+                    xs.push(v.text);
+                }
+                Ok(Ex::atom(format!("[{}]", xs.join(", ")), RTy::VecList(Box::new(el))))
+            }
             Expr::Tuple(t) if t.elems.is_empty() => Ok(Ex::atom("()", RTy::Unit)),
             Expr::Tuple(t) => {
                 let exps: Vec<Option<RTy>> = match exp { Some(RTy::Tuple(ts)) if ts.len() == t.elems.len() => ts.iter().map(|x| Some(x.clone())).collect(), _ => t.elems.iter().map(|_| None).collect() };
@@ -206,6 +217,10 @@ impl<'w> FnTr<'w> {
             let name = &segs[0];
             if let Some(v) = self.lookup(name).cloned() {
                 if let RTy::Flat(s) = &v.ty {
+                    // a flattened struct LOCAL where a packed value is expected (`result.push(mv)`): the tuple of its field variables
+                    if let (None, Some(RTy::Packed(ps, _))) = (v.param, exp) {
+                        if ps == s { if let Some(x) = self.pack_flat_local(name, s) { return Ok(x); } }
+                    }
                     return Err(self.err(e, &format!("value of struct type `{}` used as a whole (only field reads / listed opaque methods are supported)", s)));
                 }
                 self.note_use(&v.lean);
@@ -226,6 +241,17 @@ impl<'w> FnTr<'w> {
                     return Err(self.err(e, "constant is registered but not imported by a `use` in this file"));
                 }
                 return Ok(self.const_ref(&c));
+            }
+            // a global TABLE used as a value (`&ROOK_MAGICS` as an argument): its lookup function, an OPAQUE parameter
+            if let (What::Fn { opaque, .. }, Some((_, tn))) = (&self.target.what, crate::targets::TABLE_GLOBALS.iter().find(|(g, _)| g == name)) {
+                let tt = crate::targets::TABLE_TYPES.iter().find(|t| t.0 == *tn).ok_or_else(|| self.err(e, "bad table type in the table"))?;
+                if self.bits && opaque.iter().any(|o| o.recv == name && o.method == tt.1) {
+                    if !(self.use_leafs.contains(name) || self.use_glob) { return Err(self.err(e, "opaque global is not imported by a `use` in this file")); }
+                    let ty = RTy::Table(tn.to_string());
+                    let pname = format!("{}_{}", name, tt.1);
+                    let n = self.lparam(&pname, RTy::Opaque(ty.lean()), Origin::ParamMethod(usize::MAX, pname.clone()), (usize::MAX - 1, 1, self.lparams.len()))?;
+                    return Ok(Ex::atom(n, ty));
+                }
             }
             if let Some(r) = self.enum_variant(e, None, name)? { return Ok(r); }
             return Err(self.err(e, "unknown identifier (not a local, parameter or registered constant)"));
@@ -349,6 +375,18 @@ impl<'w> FnTr<'w> {
         Some((var, idx, sname, fields.join(".")))
     }
 
+    /// do all fields of the dotted `path` but the last belong to FLATTENED structs (starting at `sname`)?
+    fn chain_stays_flat(&self, sname: &str, path: &str) -> bool {
+        let segs: Vec<&str> = path.split('.').collect();
+        let mut cur = sname.to_string();
+        for seg in &segs[..segs.len() - 1] {
+            let info = match self.world.structs.get(&cur) { Some(i) => i, None => return true };
+            let fty = match info.fields.iter().find(|(n, _)| n == seg) { Some((_, t)) => t.clone(), None => return true };
+            match self.resolve_field_type(&fty, &cur) { Ok(RTy::Flat(n)) => cur = n, Ok(RTy::Struct(_)) => return false, _ => return true }
+        }
+        true
+    }
+
     /// type of a field of a VALUE of the regenerated struct `sname` (as declared in the Lean structure)
     pub fn struct_field_type(&self, fty: &syn::Type, sname: &str) -> Result<RTy, String> {
         let bits = self.world.structs.get(sname).map(|s| s.bits).unwrap_or(false);
@@ -373,7 +411,32 @@ impl<'w> FnTr<'w> {
             return Err(self.err(e, "tuple field of a value that is not a tuple"));
         }
         let field = match &f.member { syn::Member::Named(i) => i.to_string(), _ => return Err(self.err(e, "tuple field")) };
+        // field of a flattened struct LOCAL: a variable of its own
+        if let Some(xn) = path_ident(&f.base) {
+            if let Some(xv) = self.lookup(&xn).cloned() {
+                if let (RTy::Flat(_), None) = (&xv.ty, xv.param) {
+                    let v = self.lookup(&format!("{}.{}", xn, field)).cloned().ok_or_else(|| self.err(e, "unknown field of a flattened struct local"))?;
+                    self.note_use(&v.lean);
+                    return Ok(Ex::atom(v.lean, v.ty));
+                }
+            }
+        }
         if let Some((var, idx, sname, path)) = self.flat_chain(e) {
+            // `self.white.queen_side_castle`: the chain leaves the flattened structs at a regenerated struct VALUE (`self.white`);
+            // the rest is a projection
+            if !self.chain_stays_flat(&sname, &path) {
+                let base = self.tr_expr(&f.base, None)?;
+                if let RTy::Struct(s) = &base.ty {
+                    let info = self.world.structs.get(s).unwrap();
+                    let fty = info.fields.iter().find(|(n, _)| *n == field).map(|(_, t)| t.clone())
+                        .ok_or_else(|| self.err(e, &format!("struct `{}` has no field `{}`", s, field)))?;
+                    let ty = self.struct_field_type(&fty, s).map_err(|m| self.err(e, &m))?;
+                    let mut r = Ex::atom(format!("{}.{}", base.a(), lean_ident(&field)), ty);
+                    r.pure = base.pure;
+                    return Ok(r);
+                }
+                return Err(self.err(e, "field access on an unsupported value"));
+            }
             return self.flat_field(e, &var, idx, &sname, &path);
         }
         let base = self.tr_expr(&f.base, None)?;
@@ -428,7 +491,8 @@ impl<'w> FnTr<'w> {
                 } else {
                     let rt = r.as_option_term();
                     Ok(Ex::monadic(
-                        if is_and { format!("if {} then {} else pure false", l.cond(), rt) } else { format!("if {} then pure true else {}", l.cond(), rt) },
+                        // (parenthesised: a TERM-level `if`, not a `do`-`if` whose continuation Lean would duplicate into both branches)
+                        if is_and { format!("(if {} then {} else pure false)", l.cond(), rt) } else { format!("(if {} then pure true else {})", l.cond(), rt) },
                         RTy::Bool))
                 }
             }
